@@ -2117,6 +2117,26 @@ theorem winv_step {w : World} (h : WInv w) (op : Op) : WInv (step w op).1 := by
     · split
       · exact h1
       · exact winv_on h1 _ _ (fun g hg => inv_insertAnchor hg _ _)
+  | rmAbsentPoint t rc =>
+    simp only [step]
+    repeat' split
+    all_goals exact h
+  | rmAbsent kind t k =>
+    simp only [step]
+    repeat' split
+    all_goals exact h
+  | rmForeign kind t src r =>
+    simp only [step]
+    repeat' split
+    all_goals exact h
+  | insAnchorBad t r v => exact h
+  | insGuideBad t r v => exact h
+  | setAnchorsBad t vs =>
+    simp only [step]
+    exact winv_put h (inv_setAnchors (winv_get h t) _) t
+  | setGuidesBad t vs =>
+    simp only [step]
+    exact winv_put h (inv_setGuides (winv_get h t) _) t
 
 theorem winv_run {w : World} (h : WInv w) (ops : List Op) : WInv (run w ops) := by
   induction ops generalizing w with
